@@ -18,7 +18,7 @@ from simcore import treeops as T
 from simcore import values as V
 from simcore.rng import Rng
 
-REC_NAMES = ["foo", "foo2", "foo-bar", "fo", "foo-bar2", "Foo"]
+REC_NAMES = ["foo", "foo2", "foo-bar", "fo", "foo-bar2", "Foo", "m1", "m2", "m3", "m4", "m5", "m6", "m7", "m8"]
 MODES = ["r", "r+", "a", "w", "w-", "x"]
 
 LIFE_OPS = ("open", "close", "commit", "create_patch", "discard", "merge", "check_history", "apply_tail", "open_prefix")
@@ -1366,7 +1366,7 @@ class IH5StoreEngine:
             s = st[i]
             op = {"op": "commit", "rec": i}
             if cfg["classes"][str(i)] == "mf" and g.random() < 0.3:
-                op["exts"] = g.choice([{}, {"k": f"v{len(ops)}"}, {"pk": {"n": len(ops)}, "z": [1, 2]}])
+                op["exts"] = g.choice([{}, {"k": f"v{len(ops)}"}, {"pk": {"n": len(ops)}, "z": [1, 2]}, {"who": f"Jörg Müller {len(ops)}", "中": "λ"}])
             emit(op)
             if s["open"] and s["writable"]:
                 s["writable"] = False
@@ -1443,6 +1443,13 @@ class IH5StoreEngine:
                         t = merge_targets.pop(0) if g.random() < 0.85 else 4
                         cfg["classes"][str(t)] = cfg["classes"][str(i)]
                         emit({"op": "merge", "rec": i, "target": t})
+                        if t not in recs and g.random() < 0.6 and not s["writable"]:
+                            # the merged record lives on: patches on it, merged again later
+                            recs.append(t)
+                            shadows[t] = shadows[i].clone()
+                            dgen[t] = T.DataGen(g, exotic=exotic, max_nodes=max_nodes, vgen=vgen)
+                            st[t] = {"open": False, "exists": True, "writable": False, "ro": False, "committed_last": True, "n": 1}
+                            merge_targets.append(6 + len(recs))
                     continue
                 if c < 0.35:
                     do_close(i)
@@ -1467,6 +1474,10 @@ class IH5StoreEngine:
                 continue
             if not s["writable"] and g.random() < 0.85:
                 do_create_patch(i)
+                if profile in ("restart", "immutable") and g.random() < 0.12:
+                    # a patch whose only content is a change of root attributes, then a restart
+                    emit({"op": g.choice(["set_attr", "set_attr", "del_attr"]), "rec": i, "node": "/", "key": g.choice(T.ATTR_KEYS), "val": vgen.next()})
+                    do_close(i, commit=g.random() < 0.5)
                 continue
             if chain is None and g.random() < 0.08 and s["writable"]:
                 tgt = dgen[i].existing(shadows[i])
